@@ -7,7 +7,8 @@ import (
 	"github.com/mostynb/zstdpool-freelist"
 )
 
-var zstdDecoderPool = zstdpool.NewDecoderPool()
+// DecodeAll never writes beyond the capacity DecompressZstd hands it.
+var zstdDecoderPool = zstdpool.NewDecoderPool(zstd.WithDecodeAllCapLimit(true))
 
 func DecompressZstd(data []byte) ([]byte, error) {
 	dec, err := zstdDecoderPool.Get(nil)
@@ -16,7 +17,22 @@ func DecompressZstd(data []byte) ([]byte, error) {
 	}
 	defer zstdDecoderPool.Put(dec)
 
-	content, err := dec.DecodeAll(data, nil)
+	// Frames come from CAR and index files: a 13-byte frame can declare gigabytes and RLE blocks expand
+	// x32768. Bound the output by the input; ledger payloads (protobuf, varint lists) expand far less.
+	limit := uint64(1<<20) + 256*uint64(len(data))
+	size := limit
+	var hdr zstd.Header
+	if herr := hdr.Decode(data); herr == nil && hdr.HasFCS {
+		if hdr.FrameContentSize > limit {
+			return nil, fmt.Errorf("zstd frame declares %d bytes of content for %d bytes of input", hdr.FrameContentSize, len(data))
+		}
+		size = hdr.FrameContentSize
+	}
+	content, err := dec.DecodeAll(data, make([]byte, 0, size))
+	if err != nil && size < limit {
+		// more than one frame: the first frame's declared size was not the whole output
+		content, err = dec.DecodeAll(data, make([]byte, 0, limit))
+	}
 	if err != nil {
 		return nil, fmt.Errorf("failed to decompress zstd data: %w", err)
 	}
